@@ -367,6 +367,9 @@ def real_cases(draw):
     case["min"], case["max"] = mn, mx
     if fb == 16 and draw(st.integers(0, 30)) == 0:
         case["size"] = draw(st.integers(2000, 70000))
+    elif fb != 16 and draw(st.integers(0, 40)) == 0:
+        # sizes beyond 2^16 / 2^17 lattice points per sign (the lattice arithmetic must not depend on a narrow integer type)
+        case["size"] = draw(st.sampled_from([65537, 70000, 100000, 131075, 200000, 300001]))
     return case
 
 
@@ -436,7 +439,7 @@ def _shard(task):
 
 def run(ctx):
     ctx.rule = (
-        "Hypothesis-generated argument sets: size 6..2000 (float16 occasionally up to 70000), dtype, all include_* flags, nonnegative, unique, "
+        "Hypothesis-generated argument sets: size 6..2000 (float16 occasionally up to 70000, float32/float64 occasionally 65537..300001), dtype, all include_* flags, nonnegative, unique, "
         "bounds from {none, one side, both sides from special values/random floats/subnormals/+-0, 1-3 ULP apart, equal, straddling zero "
         "with very unequal sides}; product generators (complex, pair, triple) on default and bounded axes compared with the Cartesian "
         "product of the 1-D samples. Oracle: lattice predicates (order, range, bound membership, specials, subnormal/NaN absence, "
